@@ -9,6 +9,7 @@ package resharing
 import (
 	"bytes"
 	"errors"
+	"fmt"
 	"math/big"
 
 	"github.com/bnb-chain/tss-lib/v2/crypto/modproof"
@@ -46,7 +47,8 @@ func (round *round2) Start() *tss.Error {
 		r1msg := round.temp.dgRound1Messages[j].Content().(*DGRound1Message)
 		SSIDj := r1msg.UnmarshalSSID()
 		if !bytes.Equal(SSID, SSIDj) {
-			return round.WrapError(errors.New("ssid mismatch"), Pj)
+			// either old party 0 or Pj announced a wrong ssid: this cannot be attributed to one of them
+			return round.WrapError(fmt.Errorf("ssid mismatch between old parties %s and %s", round.OldParties().IDs()[0], Pj))
 		}
 	}
 	round.temp.ssid = SSID
